@@ -772,7 +772,7 @@ func vfC36CoqOut(out []*FileMatch, localPrint bool) string {
 				if len(m.Fragments) > 0 {
 					var zs []string
 					for _, f := range m.Fragments {
-						zs = append(zs, cTuple(cStr(f.Pre), cStr(f.Match), cStr(f.Post)))
+						zs = append(zs, cTuple(cStr(string(f.Pre)), cStr(string(f.Match)), cStr(string(f.Post))))
 					}
 					fr = cList(zs)
 				}
@@ -855,8 +855,8 @@ func TestVerifC36(t *testing.T) {
 						}
 						var cat strings.Builder
 						for k, f := range m.Fragments {
-							cat.WriteString(f.Pre + f.Match + f.Post)
-							if f.Match != string(in.line[in.frags[k][0]:in.frags[k][0]+in.frags[k][1]]) {
+							cat.WriteString(string(f.Pre) + string(f.Match) + string(f.Post))
+							if string(f.Match) != string(in.line[in.frags[k][0]:in.frags[k][0]+in.frags[k][1]]) {
 								vfOracleFail("format:match-text", "Match is not the matched range of the line", replay)
 							}
 						}
